@@ -27,10 +27,6 @@ Proof.
       * exact IH.
 Qed.
 
-(* the value of the LAST entry of a header list whose name is k once lower-cased *)
-Definition last_ci (k : str) (h : hdict) (dflt : option bytes) : option bytes :=
-  fold_left (fun acc kv => if str_eqb k (lower (fst kv)) then Some (snd kv) else acc) h dflt.
-
 Lemma u2_fold_get k h : forall acc,
   dict_get k (fold_left (fun acc kv => dict_set (lower (fst kv)) (snd kv) acc) h acc) =
   last_ci k h (dict_get k acc).
@@ -91,56 +87,29 @@ Proof.
   intros [H|[H|[H|H]]]; discriminate.
 Qed.
 
-(* ---------- request body ---------- *)
-(* a server that decodes by the Content-Encoding label it was sent, with ideal codecs:
-   gzip data gunzips, zlib data inflates, and anything else is taken as it is *)
-Definition server_decodes (label : option bytes) (w : wire) : option blob :=
-  match label with
-  | Some v =>
-      if ci_eqb v v_gzip then match w with WGzip m => Some m | _ => None end
-      else if ci_eqb v v_deflate then match w with WDeflate m => Some m | _ => None end
-      else match w with WRaw m => Some m | _ => None end
-  | None => match w with WRaw m => Some m | _ => None end
-  end.
-
-(* the label is one of the two tokens of the property text, or no compression label at all *)
-Definition label_plain (label : option bytes) : bool :=
-  match label with
-  | Some v => str_eqb v v_gzip || str_eqb v v_deflate || negb (ci_eqb v v_gzip || ci_eqb v v_deflate)
-  | None => true
-  end.
-
-Lemma body_fidelity_l h msg :
-  label_plain (dict_get n_content_encoding h) = true ->
-  server_decodes (dict_get n_content_encoding h) (wire_body h msg) = Some msg.
-Proof.
-  unfold wire_body, server_decodes, label_plain.
-  destruct (dict_get n_content_encoding h) as [v|]; [|reflexivity].
-  destruct (str_eqb v v_gzip) eqn:G.
-  - apply str_eqb_eq in G. subst v. reflexivity.
-  - destruct (str_eqb v v_deflate) eqn:D.
-    + apply str_eqb_eq in D. subst v. reflexivity.
-    + cbn. intro H. apply negb_true_iff in H. apply orb_false_iff in H as [A B].
-      rewrite A, B. reflexivity.
-Qed.
-
-Lemma credentials_keep_encoding_l P k c h :
-  dict_get n_content_encoding (add_credentials P k c h) = dict_get n_content_encoding h.
-Proof.
-  destruct k, c as [[u|] [p|]]; try reflexivity.
-  cbn [add_credentials]. rewrite get_set. reflexivity.
-Qed.
-
 (* ---------- reply ---------- *)
 Lemma reply_fidelity_l ce body gz zl :
   (ce = None -> decode_reply ce body gz zl = RReply 200 body) /\
-  (forall p, ce = Some v_gzip -> gz = Some p -> decode_reply ce body gz zl = RReply 200 p) /\
-  (forall p, ce = Some v_deflate -> zl = Some p -> decode_reply ce body gz zl = RReply 200 p) /\
-  (forall v, ce = Some v -> str_eqb v v_gzip = false -> str_eqb v v_deflate = false ->
+  (forall v p, ce = Some v -> ci_eqb v v_gzip = true -> gz = Some p ->
+               decode_reply ce body gz zl = RReply 200 p) /\
+  (forall v p, ce = Some v -> ci_eqb v v_gzip = false -> ci_eqb v v_deflate = true -> zl = Some p ->
+               decode_reply ce body gz zl = RReply 200 p) /\
+  (forall v, ce = Some v -> ci_eqb v v_gzip = false -> ci_eqb v v_deflate = false ->
              decode_reply ce body gz zl = RReply 200 body).
 Proof.
-  repeat split; intros; subst; cbn; try reflexivity.
-  unfold decode_reply. rewrite H0, H1. reflexivity.
+  repeat split; intros; subst; unfold decode_reply;
+    repeat match goal with H : ci_eqb _ _ = _ |- _ => rewrite H; clear H end; reflexivity.
+Qed.
+
+(* the caller gets exactly what a reader decoding by the reply's label (case-insensitively,
+   RFC 9110 8.4.1) gets - the specification function of Model.v - whenever that succeeds *)
+Lemma reply_matches_label_l ce body gz zl p :
+  decoded_by_label ce body gz zl = Some p -> decode_reply ce body gz zl = RReply 200 p.
+Proof.
+  unfold decoded_by_label, decode_reply. destruct ce as [v|]; [|intro H; injection H as ->; reflexivity].
+  destruct (ci_eqb v v_gzip); [intro H; rewrite H; reflexivity|].
+  destruct (ci_eqb v v_deflate); [intro H; rewrite H; reflexivity|].
+  intro H. injection H as ->. reflexivity.
 Qed.
 
 Lemma error_mapping_l code body :
@@ -264,63 +233,6 @@ Proof.
   change (lower n_authorization) with l_authorization. exact C.
 Qed.
 
-(* ---------- the label the server sees is the label the switch looked at ---------- *)
-Lemma lower_content_encoding : lower n_content_encoding = l_content_encoding.
-Proof. reflexivity. Qed.
-
-Lemma get_none_of_no_ci k h : no_ci (lower k) h = true -> dict_get k h = None.
-Proof.
-  unfold no_ci. induction h as [|[k0 v0] h IH]; intro H; [reflexivity|].
-  cbn [forallb fst] in H. apply andb_true_iff in H as [A B]. apply negb_true_iff in A.
-  cbn [dict_get]. destruct (str_eqb k k0) eqn:E.
-  - apply str_eqb_eq in E. subst k0. rewrite str_eqb_refl in A. discriminate.
-  - apply IH, B.
-Qed.
-
-Lemma get_app_fresh k v pre post : no_ci (lower k) pre = true -> dict_get k (pre ++ (k, v) :: post) = Some v.
-Proof.
-  unfold no_ci. induction pre as [|[k0 v0] pre IH]; intro H.
-  - cbn. rewrite str_eqb_refl. reflexivity.
-  - cbn [forallb fst] in H. apply andb_true_iff in H as [A B]. apply negb_true_iff in A.
-    cbn [app dict_get]. destruct (str_eqb k k0) eqn:E.
-    + apply str_eqb_eq in E. subst k0. rewrite str_eqb_refl in A. discriminate.
-    + apply IH, B.
-Qed.
-
-(* with the label spelled "Content-Encoding" once (and in no other way), what a server decoding
-   by the label IT RECEIVES gets is the envelope - through any transport class, with or without
-   credentials, wherever the entry stands among any number of other headers *)
-Lemma body_fidelity_on_the_wire_l P kind c pre post v msg :
-  no_ci l_content_encoding pre = true -> no_ci l_content_encoding post = true ->
-  label_plain (Some v) = true ->
-  let h1 := add_credentials P kind c (pre ++ (n_content_encoding, v) :: post) in
-  server_decodes (dict_get l_content_encoding (u2_headers h1)) (wire_body h1 msg) = Some msg.
-Proof.
-  intros A B L h1. subst h1.
-  rewrite <- lower_content_encoding in A, B.
-  pose proof (request_header_delivered_l P kind c pre post n_content_encoding v A B eq_refl) as W.
-  rewrite lower_content_encoding in W. rewrite W.
-  pose proof (body_fidelity_l (add_credentials P kind c (pre ++ (n_content_encoding, v) :: post)) msg) as F.
-  rewrite credentials_keep_encoding_l, get_app_fresh in F by exact A.
-  apply F, L.
-Qed.
-
-Lemma last_ci_no k h d : no_ci k h = true -> last_ci k h d = d.
-Proof. apply last_ci_none. Qed.
-
-Lemma body_unlabelled_on_the_wire_l P kind c h msg :
-  no_ci l_content_encoding h = true ->
-  let h1 := add_credentials P kind c h in
-  dict_get l_content_encoding (u2_headers h1) = None /\ wire_body h1 msg = WRaw msg.
-Proof.
-  intros A h1. subst h1. split.
-  - rewrite u2_get_l. destruct kind, c as [[u|] [p|]]; cbn [add_credentials];
-      try (apply last_ci_no; exact A).
-    rewrite last_ci_set_other by reflexivity. apply last_ci_no. exact A.
-  - unfold wire_body. rewrite credentials_keep_encoding_l, get_none_of_no_ci; [reflexivity|].
-    rewrite lower_content_encoding. exact A.
-Qed.
-
 (* ---------- any header map at all: nothing but the caller's values or the defaults ---------- *)
 Lemma last_ci_two k d : forall x y,
   last_ci k d x = last_ci k d y \/ (last_ci k d x = x /\ last_ci k d y = y).
@@ -368,4 +280,66 @@ Proof.
   - right. apply str_eqb_eq in S. split; congruence.
   - destruct (str_eqb k l_content_type) eqn:C; [|discriminate].
     left. apply str_eqb_eq in C. split; congruence.
+Qed.
+
+(* ---------- request body ---------- *)
+(* a server that decodes by the Content-Encoding label it was sent (case-insensitively), with
+   ideal codecs: gzip data gunzips, zlib data inflates, anything else is taken as it is *)
+Definition server_decodes (label : option bytes) (w : wire) : option blob :=
+  match label with
+  | Some v =>
+      if ci_eqb v v_gzip then match w with WGzip m => Some m | _ => None end
+      else if ci_eqb v v_deflate then match w with WDeflate m => Some m | _ => None end
+      else match w with WRaw m => Some m | _ => None end
+  | None => match w with WRaw m => Some m | _ => None end
+  end.
+
+(* for EVERY header dict - any spelling of the name, several spellings at once, any case of the
+   coding - the label the server finds is the one the switch looked at, so it decodes the envelope *)
+Lemma body_fidelity_l h msg :
+  server_decodes (dict_get l_content_encoding (u2_headers h)) (wire_body h msg) = Some msg.
+Proof.
+  rewrite u2_get_l. unfold wire_body, server_decodes.
+  destruct (last_ci l_content_encoding h None) as [v|]; [|reflexivity].
+  destruct (ci_eqb v v_gzip); [reflexivity|]. destruct (ci_eqb v v_deflate); reflexivity.
+Qed.
+
+Lemma body_fidelity_on_the_wire_l P kind c h msg :
+  let h1 := add_credentials P kind c h in
+  server_decodes (dict_get l_content_encoding (u2_headers h1)) (wire_body h1 msg) = Some msg.
+Proof. intro h1. apply body_fidelity_l. Qed.
+
+Lemma credentials_keep_encoding_l P k c h :
+  last_ci l_content_encoding (add_credentials P k c h) None = last_ci l_content_encoding h None.
+Proof.
+  destruct k, c as [[u|] [p|]]; try reflexivity.
+  cbn [add_credentials]. apply last_ci_set_other. reflexivity.
+Qed.
+
+Lemma credentials_keep_body_l P k c h msg : wire_body (add_credentials P k c h) msg = wire_body h msg.
+Proof. unfold wire_body. rewrite credentials_keep_encoding_l. reflexivity. Qed.
+
+(* the switch itself: compressed exactly when the last spelling of the header says gzip / deflate *)
+Lemma compression_switch_l h msg :
+  (forall v, last_ci l_content_encoding h None = Some v -> ci_eqb v v_gzip = true ->
+             wire_body h msg = WGzip msg) /\
+  (forall v, last_ci l_content_encoding h None = Some v -> ci_eqb v v_gzip = false ->
+             ci_eqb v v_deflate = true -> wire_body h msg = WDeflate msg) /\
+  (forall v, last_ci l_content_encoding h None = Some v -> ci_eqb v v_gzip = false ->
+             ci_eqb v v_deflate = false -> wire_body h msg = WRaw msg) /\
+  (last_ci l_content_encoding h None = None -> wire_body h msg = WRaw msg).
+Proof.
+  unfold wire_body. repeat split; intros;
+    repeat match goal with H : _ = _ |- _ => rewrite H; clear H end; reflexivity.
+Qed.
+
+Lemma body_unlabelled_on_the_wire_l P kind c h msg :
+  no_ci l_content_encoding h = true ->
+  let h1 := add_credentials P kind c h in
+  dict_get l_content_encoding (u2_headers h1) = None /\ wire_body h1 msg = WRaw msg.
+Proof.
+  intros A h1. subst h1.
+  assert (N : last_ci l_content_encoding (add_credentials P kind c h) None = None).
+  { rewrite credentials_keep_encoding_l. apply last_ci_none. exact A. }
+  split; [rewrite u2_get_l; exact N | unfold wire_body; rewrite N; reflexivity].
 Qed.
